@@ -1,6 +1,7 @@
 package props
 
 import (
+	"context"
 	"fmt"
 	"math"
 	"math/big"
@@ -30,7 +31,7 @@ var c04 = core.Register(&core.Prop{
 	Shards: func(tier string) int { return pickTier(tier, 8, 16) },
 	Floors: func(c map[string]int64, tier string) []string {
 		var out []string
-		for _, k := range []string{"op:+", "op:-", "op:*", "op:/", "op:%", "rounded_results", "exact_ties", "chain_cases", "minimal_parentheses_chains", "disturbers_evaluated", "data_float_cases", "data_values_below_top_level", "operands_entering_as_text", "data_values_under_operators", "data_int_cases", "handback_exact_domain", "handback_ulp_domain", "host_received"} {
+		for _, k := range []string{"op:+", "op:-", "op:*", "op:/", "op:%", "rounded_results", "exact_ties", "chain_cases", "minimal_parentheses_chains", "disturbers_evaluated", "data_float_cases", "data_values_below_top_level", "operands_entering_as_text", "data_values_under_operators", "data_values_through_setthisvalue", "data_int_cases", "handback_exact_domain", "handback_ulp_domain", "host_received"} {
 			if c[k] == 0 {
 				out = append(out, "coverage floor: no "+k)
 			}
@@ -261,7 +262,8 @@ type DataNumCase struct {
 	F    float64 `json:"f,omitempty"`
 	I    int64   `json:"i,omitempty"`
 	// Where the value sits in the caller's data: "" top-level entry, "map" entry of a nested map[string]interface{},
-	// "tmap" element of a map typed by the value's kind, "field" typed struct field, "anyfield" interface{} struct field
+	// "tmap" element of a map typed by the value's kind, "field" typed struct field, "anyfield" interface{} struct field,
+	// "setvalue" handed over through Runner.SetThisValue (no map of the caller's), "setvalue-after" the same on top of a map
 	Where string `json:"where,omitempty"`
 }
 
@@ -331,6 +333,20 @@ var c04Data = core.Mon(c04, "data-entry", func(w *core.W, c *DataNumCase) {
 	if c.Where != "" {
 		w.Count("data_values_below_top_level")
 	}
+	if strings.HasPrefix(c.Where, "setvalue") {
+		// the single-entry setter is an entry point like the map: what it stores is the caller's value
+		v, err, panicked, pv := evalViaSetter(path+" === "+litOf(text)+" ? ["+path+"] : ['differs', "+path+"]", gv, c.Where == "setvalue-after")
+		w.Count("data_values_through_setthisvalue")
+		if panicked || err != nil {
+			w.Violation("data-entry", "C04/data-entry-error", c, text, fmt.Sprint(pv, err), "SetThisValue(x, ...) then "+path)
+			return
+		}
+		d, ok := elem0(v)
+		if !ok || !obs.DecOf(d).Equal(exp) {
+			w.Violation("data-entry", "C04/data-value-through-setter:"+c.Kind, c, text, show(v), fmt.Sprintf("x handed over with SetThisValue as %s(%s) is not the number %s inside a formula", c.Kind, text, text))
+		}
+		return
+	}
 	v, err, panicked, pv := evalArray1("["+path+"]", data)
 	if panicked || err != nil {
 		w.Violation("data-entry", "C04/data-entry-error", c, text, fmt.Sprint(pv, err), "["+path+"]")
@@ -396,6 +412,30 @@ var c04Data = core.Mon(c04, "data-entry", func(w *core.W, c *DataNumCase) {
 		}
 	}
 })
+
+func litOf(text string) string {
+	if strings.HasPrefix(text, "-") {
+		return "(-" + strings.TrimPrefix(text, "-") + ")"
+	}
+	return text
+}
+
+// evalViaSetter evaluates src on a runner whose entry x was set with SetThisValue.
+func evalViaSetter(src string, x interface{}, onTopOfMap bool) (interface{}, error, bool, interface{}) {
+	sc, err := hostParse([]byte(src), true)
+	if err != nil {
+		return nil, err, false, nil
+	}
+	r := formula.NewRunner()
+	if onTopOfMap {
+		r.SetThis(map[string]interface{}{"y": 1})
+	}
+	r.SetThisValue("x", x)
+	var v interface{}
+	var rerr error
+	p, pv := core.Call(func() { v, rerr = r.Resolve(context.Background(), sc.Expression) })
+	return v, rerr, p, pv
+}
 
 func ulpDiff(a, b float64) float64 {
 	if a == b {
@@ -749,7 +789,9 @@ func runC04(w *core.W) {
 	}
 	// 5. data values
 	r = w.RNG("data")
-	fedge := []float64{0.1, 0.2, 0.3, 1e22, 1e23, 5e-324, math.MaxFloat64, 1 << 53, 1<<53 + 2, 9007199254740993, 30.749999000000003, 0.30000000000000004, 1.1, 2.2, 1e-7, 123456789.123456789, -0.0, 1, -1, 4.35, 100, 1e15, 1e16, 1e17, 2.5e-10}
+	fedge := []float64{0.1, 0.2, 0.3, 1e22, 1e23, 5e-324, math.MaxFloat64, 1 << 53, 1<<53 + 2, 9007199254740993, 30.749999000000003, 0.30000000000000004, 1.1, 2.2, 1e-7, 123456789.123456789, -0.0, 1, -1, 4.35, 100, 1e15, 1e16, 1e17, 2.5e-10,
+		// float64 values that a float32 holds exactly (their shortest float64 text is long)
+		float64(float32(0.1)), float64(float32(19.99)), float64(float32(1.1)), float64(float32(33.333332)), float64(float32(2.675)), float64(float32(1e-3))}
 	for i, n := 0, w.Pick(60000, 900000); i < n; i++ {
 		var c *DataNumCase
 		switch i % 6 {
@@ -775,7 +817,7 @@ func runC04(w *core.W) {
 		c04Data(w, c)
 		// the same value below the top level of the data: in a nested map, a map typed by its kind, a typed and an untyped struct field
 		nc := *c
-		nc.Where = []string{"map", "tmap", "field", "anyfield"}[(i/6)%4]
+		nc.Where = []string{"map", "tmap", "field", "anyfield", "setvalue", "setvalue-after"}[(i/6)%6]
 		c04Data(w, &nc)
 		if i%3001 == 0 {
 			_, t := c.value()
